@@ -50,7 +50,11 @@ func starGraph(n int) gdbi.GraphInterface {
 	vsx := []*gdbi.Vertex{{ID: "c", Label: "C", Data: map[string]any{"n": 0.0}, Loaded: true}}
 	var es []*gdbi.Edge
 	for i := 0; i < n; i++ {
-		vsx = append(vsx, &gdbi.Vertex{ID: fmt.Sprintf("l%05d", i), Label: "L", Data: map[string]any{"n": float64(i % 7)}, Loaded: true})
+		var nv any = float64(i % 7)
+		if i == 1 {
+			nv = "n/a" // one early row whose aggregated field is present but not a number
+		}
+		vsx = append(vsx, &gdbi.Vertex{ID: fmt.Sprintf("l%05d", i), Label: "L", Data: map[string]any{"n": nv}, Loaded: true})
 		es = append(es, &gdbi.Edge{ID: fmt.Sprintf("e%05d", i), From: "c", To: fmt.Sprintf("l%05d", i), Label: "x", Loaded: true})
 	}
 	gi.AddVertex(vsx)
@@ -70,6 +74,9 @@ func c07Programs() []c07Prog {
 	term := &gripql.Aggregate{Name: "t", Aggregation: &gripql.Aggregate_Term{Term: &gripql.TermAggregation{Field: "n"}}}
 	cnt := &gripql.Aggregate{Name: "c", Aggregation: &gripql.Aggregate_Count{Count: &gripql.CountAggregation{}}}
 	hist := &gripql.Aggregate{Name: "h", Aggregation: &gripql.Aggregate_Histogram{Histogram: &gripql.HistogramAggregation{Field: "n", Interval: 2}}}
+	pct := &gripql.Aggregate{Name: "p", Aggregation: &gripql.Aggregate_Percentile{Percentile: &gripql.PercentileAggregation{Field: "n", Percents: []float64{50, 90}}}}
+	fld := &gripql.Aggregate{Name: "f", Aggregation: &gripql.Aggregate_Field{Field: &gripql.FieldAggregation{Field: "$._data"}}}
+	typ := &gripql.Aggregate{Name: "y", Aggregation: &gripql.Aggregate_Type{Type: &gripql.TypeAggregation{Field: "n"}}}
 	min := func(a, b int) int {
 		if a < b {
 			return a
@@ -85,6 +92,12 @@ func c07Programs() []c07Prog {
 		{"E().both()", func(k int) []*gripql.GraphStatement { return gripql.E().Both().Statements }, func(n, k int) int { return 2 * n }},
 		{"V().aggregate(term,count,histogram)", func(k int) []*gripql.GraphStatement {
 			return gripql.V().Aggregate([]*gripql.Aggregate{term, cnt, hist}).Statements
+		}, func(n, k int) int { return -1 }},
+		{"V().aggregate(percentile,field,type)", func(k int) []*gripql.GraphStatement {
+			return gripql.V().Aggregate([]*gripql.Aggregate{pct, fld, typ}).Statements
+		}, func(n, k int) int { return -1 }},
+		{"V().out().aggregate(percentile)", func(k int) []*gripql.GraphStatement {
+			return gripql.V().Out().Aggregate([]*gripql.Aggregate{pct}).Statements
 		}, func(n, k int) int { return -1 }},
 		{"V().distinct()", func(k int) []*gripql.GraphStatement { return gripql.V().Distinct().Statements }, func(n, k int) int { return n + 1 }},
 		{"V().limit(k)", func(k int) []*gripql.GraphStatement { return gripql.V().Limit(uint32(k)).Statements }, func(n, k int) int { return min(k, n+1) }},
@@ -338,7 +351,7 @@ func C07(tier string, args []string) int {
 		return sweep.RunWorker(w, args)
 	}
 	return runSchedWith("C07", tier, args, w,
-		"17 traversal shapes (scan, fan-out, both/bothE fan-in, aggregation, distinct, limit/range, label-index starts with and without truncation, edge scans and edge hops under limit) on star graphs; regime (a): all literal capacities scaled to 2..5, N from 0 to 17 (22), preemption bound 1 with an execution cap per scenario, plus client cancellation after 0/1/3 rows; regime (b): real capacities, N around 100/1000 (5000 thorough), default schedule plus deviations; every execution must close the result stream, return the expected number of rows, leave no goroutine parked; deadlock is 'no enabled goroutine'",
+		"19 traversal shapes (scan, fan-out, both/bothE fan-in, every kind of aggregation over a field that is not numeric in one early row, distinct, limit/range, label-index starts with and without truncation, edge scans and edge hops under limit) on star graphs; regime (a): all literal capacities scaled to 2..5, N from 0 to 17 (22), preemption bound 1 with an execution cap per scenario, plus client cancellation after 0/1/3 rows; regime (b): real capacities, N around 100/1000 (5000 thorough), default schedule plus deviations; every execution must close the result stream, return the expected number of rows, leave no goroutine parked; deadlock is 'no enabled goroutine'",
 		[]string{
 			"regime (a) is a model variant of the code: the literal capacities 10/50/100/1000/5000 are replaced by 2/2/2/3/5 (order preserving) through the instrumented make(chan) calls; regime (b) runs the capacities as written",
 			"the temporary-storage clause is decided by an unscheduled sweep of distinct() traversals through the unmodified pipeline.Run (Badger temp stores) with a private work directory that must be empty once the result stream has closed, with and without client cancellation",
